@@ -414,7 +414,9 @@ func convTypeToTarget(source interface{}, target reflect.Type) (interface{}, err
 	default:
 		if source != nil {
 			rv := reflect.ValueOf(source)
-			if rv.IsValid() && rv.CanConvert(target) {
+			// Go converts an integer to a string as a code point ("A" for 65); a formula wants its digits
+			intToString := target.Kind() == reflect.String && rv.Kind() >= reflect.Int && rv.Kind() <= reflect.Uintptr
+			if rv.IsValid() && rv.CanConvert(target) && !intToString {
 				return rv.Convert(target).Interface(), nil
 			}
 		}
